@@ -107,7 +107,7 @@ class SharedBufferAPI : public BufferAPI<ArrayT>
      { return !_orig.writable(); }
 
     void *buffer() override
-     { return static_cast<void *> (&_orig.direct_index(0)); }
+     { return static_cast<void *> (&_orig.unchecked_direct_index(0)); }
 
   private:
 
@@ -147,7 +147,7 @@ class CopyBufferAPI : public BufferAPI<ArrayT>
      { return false; }
 
     void *buffer() override
-     { return static_cast<void *> (&_copy.direct_index(0)); }
+     { return static_cast<void *> (&_copy.unchecked_direct_index(0)); }
 
   private:
 
